@@ -186,6 +186,19 @@ func Use(
 }
 `
 
+// a user package that dot-imports the declaring package: references are bare identifiers
+const c04SrcDot = `package dot
+
+import . "zzmod/d"
+
+func Use(
+	t *T, // DOT-PT
+) {
+	t.M() // DOT-TM
+	M() // DOT-FM
+}
+`
+
 // ZZC04Names: two types of d with a method of the SAME name (plus a function of that name), each with its own allow-list;
 // a user package that shares d's package name under another path; a user file without imports.
 func ZZC04Names() {
@@ -195,15 +208,22 @@ func ZZC04Names() {
 	annRM := nd.EnumPad("annRM", " @packageonly", " @packageonly u", " @packageonly zzmod/x/d", " plain")
 	annFM := nd.EnumPad("annFM", " @packageonly", " @packageonly u", " @packageonly d", " plain")
 	holes := []nd.Hole{{"annT", annT}, {"annR", annR}, {"annTM", annTM}, {"annRM", annRM}, {"annFM", annFM}}
-	files := []nd.File{{Pkg: "zzmod/d", Name: "d.go", Src: c04SrcD2}, {Pkg: "zzmod/u", Name: "u1.go", Src: c04SrcU1}, {Pkg: "zzmod/u", Name: "u3.go", Src: c04SrcU3}, {Pkg: "zzmod/x/d", Name: "w.go", Src: c04SrcW}}
+	files := []nd.File{{Pkg: "zzmod/d", Name: "d.go", Src: c04SrcD2}, {Pkg: "zzmod/u", Name: "u1.go", Src: c04SrcU1}, {Pkg: "zzmod/u", Name: "u3.go", Src: c04SrcU3}, {Pkg: "zzmod/x/d", Name: "w.go", Src: c04SrcW}, {Pkg: "zzmod/dot", Name: "dot.go", Src: c04SrcDot}}
 	prog := nd.LoadProgram(files, holes)
 	cfg := config.Default()
 	rd := Analyze(prog, cfg, "zzmod/d", Facts{}, "pkgo")
 	ru := Analyze(prog, cfg, "zzmod/u", Facts{"zzmod/d": &rd.Ann}, "pkgo")
 	rw := Analyze(prog, cfg, "zzmod/x/d", Facts{"zzmod/d": &rd.Ann}, "pkgo")
+	rdot := Analyze(prog, cfg, "zzmod/dot", Facts{"zzmod/d": &rd.Ann}, "pkgo")
 	CheckExact(rd.Diags, []Expect{}, "C04 declaring package")
 
 	on := func(a string) bool { return nd.HasPrefix(a, " @packageonly") }
+	// no spelling allows package dot (path zzmod/dot)
+	CheckExact(rdot.Diags, []Expect{
+		{"/zz/zzmod/dot/dot.go", nd.LineOf(c04SrcDot, "DOT-PT"), "PKGO01", on(annT)},
+		{"/zz/zzmod/dot/dot.go", nd.LineOf(c04SrcDot, "DOT-TM"), "PKGO03", on(annTM)},
+		{"/zz/zzmod/dot/dot.go", nd.LineOf(c04SrcDot, "DOT-FM"), "PKGO02", on(annFM)},
+	}, "C04 dot-importing user package")
 	uT := nd.HasPrefix(annT, " @packageonly u")
 	wT := nd.Or(nd.HasPrefix(annT, " @packageonly d"), nd.HasPrefix(annT, " @packageonly zzmod/x/d"))
 	uR := nd.Or(nd.HasPrefix(annR, " @packageonly u"), nd.HasPrefix(annR, " @packageonly d, u"))
